@@ -2,7 +2,9 @@
 (***************************************************************************)
 (* TLAPS: the representation invariant of micromap (len <= Cap, keys        *)
 (* pairwise different) is inductive for an UNBOUNDED capacity - no bound on *)
-(* Cap, on the key universe or on the length of the slot sequence.          *)
+(* Cap, on the key universe or on the length of the slot sequence - and     *)
+(* each slot-level step refines the ideal set of keys (theorems InsertRef,  *)
+(* SwapRemoveRef, PopBackRef, ClearRef, LookupRef at the end).              *)
 (***************************************************************************)
 EXTENDS Integers, Sequences, TLAPS
 
@@ -95,4 +97,108 @@ THEOREM NextInv == Inv /\ [Next]_slots => Inv'
 
 THEOREM Safety == Init /\ [][Next]_slots => []Inv
   BY InitInv, NextInv, PTL
+
+(***************************************************************************)
+(* Refinement of the ideal SET of keys, unbounded: each slot-level step     *)
+(* changes the abstraction  Ks = {slots[i]}  exactly as the ideal operation *)
+(* does (the induction step behind C01 / C07 for the key part; values ride  *)
+(* along in the same slots).                                                *)
+(***************************************************************************)
+Ks == {slots[i] : i \in 1..Len(slots)}
+
+THEOREM InsertRef == ASSUME Inv, NEW k \in Keys, Insert(k)
+                     PROVE  Ks' = IF Present(k) \/ Len(slots) < Cap THEN Ks \cup {k} ELSE Ks
+  <1>0. slots \in Seq(Keys) /\ Len(slots) \in Nat BY DEF Inv, TypeOK
+  <1>1. CASE Present(k)
+    <2>1. slots' = slots BY <1>1 DEF Insert
+    <2>2. k \in Ks BY <1>1 DEF Present, Ks
+    <2>. QED BY <1>1, <2>1, <2>2 DEF Ks
+  <1>2. CASE ~Present(k) /\ Len(slots) < Cap
+    <2>1. slots' = Append(slots, k) BY <1>2 DEF Insert
+    <2>2. Len(slots') = Len(slots) + 1 BY <2>1, <1>0
+    <2>3. \A i \in 1..Len(slots) : slots'[i] = slots[i] BY <2>1, <1>0
+    <2>4. slots'[Len(slots) + 1] = k BY <2>1, <1>0
+    <2>5. Ks' = {slots'[i] : i \in 1..(Len(slots) + 1)} BY <2>2 DEF Ks
+    <2>6. Ks' = Ks \cup {k}
+      <3>1. ASSUME NEW x \in Ks' PROVE x \in Ks \cup {k}
+        <4>1. PICK i \in 1..(Len(slots) + 1) : x = slots'[i] BY <2>5
+        <4>2. CASE i = Len(slots) + 1 BY <4>1, <4>2, <2>4
+        <4>3. CASE i \in 1..Len(slots) BY <4>1, <4>3, <2>3 DEF Ks
+        <4>. QED BY <4>2, <4>3, <1>0
+      <3>2. ASSUME NEW x \in Ks \cup {k} PROVE x \in Ks'
+        <4>1. CASE x = k BY <4>1, <2>4, <2>5, <1>0
+        <4>2. CASE x \in Ks
+          <5>1. PICK i \in 1..Len(slots) : x = slots[i] BY <4>2 DEF Ks
+          <5>2. i \in 1..(Len(slots) + 1) BY <1>0
+          <5>. QED BY <5>1, <5>2, <2>3, <2>5
+        <4>. QED BY <4>1, <4>2
+      <3>. QED BY <3>1, <3>2
+    <2>. QED BY <1>2, <2>6
+  <1>3. CASE ~Present(k) /\ ~(Len(slots) < Cap)
+    <2>1. slots' = slots BY <1>3 DEF Insert
+    <2>. QED BY <1>3, <2>1 DEF Ks
+  <1>. QED BY <1>1, <1>2, <1>3
+
+THEOREM SwapRemoveRef == ASSUME Inv, NEW i \in 1..Len(slots), SwapRemove(i)
+                         PROVE  Ks' = Ks \ {slots[i]}
+  <1> DEFINE n == Len(slots)
+  <1>0. n \in Nat /\ n >= 1 /\ slots \in Seq(Keys) /\ i \in 1..n BY DEF Inv, TypeOK
+  <1>1. slots' = [j \in 1..(n - 1) |-> IF j = i THEN slots[n] ELSE slots[j]] BY DEF SwapRemove
+  <1>2. Len(slots') = n - 1 BY <1>0, <1>1
+  <1>3. \A j \in 1..(n - 1) : slots'[j] = IF j = i THEN slots[n] ELSE slots[j] BY <1>1
+  <1>4. Ks' = {slots'[j] : j \in 1..(n - 1)} BY <1>2 DEF Ks
+  <1>u. \A a, b \in 1..n : slots[a] = slots[b] => a = b BY DEF Inv, Unique
+  <1>5. ASSUME NEW x \in Ks' PROVE x \in Ks \ {slots[i]}
+    <2>1. PICK j \in 1..(n - 1) : x = slots'[j] BY <1>4
+    <2>2. CASE j = i
+      <3>1. x = slots[n] BY <2>1, <2>2, <1>3
+      <3>2. n # i BY <2>2, <1>0
+      <3>3. slots[n] # slots[i] BY <3>2, <1>u, <1>0
+      <3>. QED BY <3>1, <3>3, <1>0 DEF Ks
+    <2>3. CASE j # i
+      <3>1. x = slots[j] BY <2>1, <2>3, <1>3
+      <3>2. j \in 1..n BY <1>0
+      <3>3. slots[j] # slots[i] BY <2>3, <3>2, <1>u, <1>0
+      <3>. QED BY <3>1, <3>2, <3>3 DEF Ks
+    <2>. QED BY <2>2, <2>3
+  <1>6. ASSUME NEW x \in Ks \ {slots[i]} PROVE x \in Ks'
+    <2>1. PICK j \in 1..n : x = slots[j] BY DEF Ks
+    <2>2. j # i BY <2>1
+    <2>3. CASE j = n
+      <3>1. i \in 1..(n - 1) BY <2>2, <2>3, <1>0
+      <3>2. slots'[i] = slots[n] BY <3>1, <1>3
+      <3>. QED BY <2>1, <2>3, <3>1, <3>2, <1>4
+    <2>4. CASE j # n
+      <3>1. j \in 1..(n - 1) BY <2>4, <1>0
+      <3>2. slots'[j] = slots[j] BY <3>1, <2>2, <1>3
+      <3>. QED BY <2>1, <3>1, <3>2, <1>4
+    <2>. QED BY <2>3, <2>4
+  <1>. QED BY <1>5, <1>6
+
+THEOREM PopBackRef == ASSUME Inv, PopBack PROVE Ks' = Ks \ {slots[Len(slots)]}
+  <1> DEFINE n == Len(slots)
+  <1>0. n \in Nat /\ n >= 1 /\ slots \in Seq(Keys) BY DEF Inv, TypeOK, PopBack
+  <1>1. slots' = [j \in 1..(n - 1) |-> slots[j]] BY DEF PopBack
+  <1>2. Len(slots') = n - 1 BY <1>0, <1>1
+  <1>3. \A j \in 1..(n - 1) : slots'[j] = slots[j] BY <1>1
+  <1>4. Ks' = {slots'[j] : j \in 1..(n - 1)} BY <1>2 DEF Ks
+  <1>u. \A a, b \in 1..n : slots[a] = slots[b] => a = b BY DEF Inv, Unique
+  <1>5. ASSUME NEW x \in Ks' PROVE x \in Ks \ {slots[n]}
+    <2>1. PICK j \in 1..(n - 1) : x = slots'[j] BY <1>4
+    <2>2. x = slots[j] /\ j \in 1..n /\ j # n BY <2>1, <1>3, <1>0
+    <2>3. slots[j] # slots[n] BY <2>2, <1>u, <1>0
+    <2>. QED BY <2>2, <2>3 DEF Ks
+  <1>6. ASSUME NEW x \in Ks \ {slots[n]} PROVE x \in Ks'
+    <2>1. PICK j \in 1..n : x = slots[j] BY DEF Ks
+    <2>2. j # n BY <2>1
+    <2>3. j \in 1..(n - 1) BY <2>2, <1>0
+    <2>. QED BY <2>1, <2>3, <1>3, <1>4
+  <1>. QED BY <1>5, <1>6
+
+THEOREM ClearRef == ASSUME Clear PROVE Ks' = {}
+  BY DEF Clear, Ks
+
+\* lookups scan the live prefix: a key is found iff it is in the abstraction
+THEOREM LookupRef == ASSUME NEW k PROVE Present(k) <=> k \in Ks
+  BY DEF Present, Ks
 =============================================================================
